@@ -28,12 +28,15 @@ Payload(k, small) == CASE k = "instance" -> IF small THEN SmallInst ELSE DefInst
 NoAnnI == [title |-> <<>>, license |-> <<>>, dataset |-> <<>>, authors |-> <<>>, variables |-> <<>>, constraints |-> <<>>, created |-> <<>>, other |-> <<>>]
 FullAnnI == [title |-> <<"my title">>, license |-> <<"MIT">>, dataset |-> <<"ds">>, authors |-> << <<"Ann Author", "Bob B.">> >>, variables |-> <<3>>, constraints |-> <<0>>,
              created |-> <<"2024-05-01T12:30:45Z">>, other |-> << <<"org.example.key", "value one">>, <<"x", "y">> >>]
+\* annotation values may legally be empty strings
+EmptyAnnI == [title |-> <<"">>, license |-> <<"MIT">>, dataset |-> <<"">>, authors |-> <<>>, variables |-> <<0>>, constraints |-> <<>>,
+              created |-> <<>>, other |-> << <<"org.ommx.user.comment", "">> >>]
 NoAnnS == [start |-> <<>>, end |-> <<>>, instance |-> <<>>, solver |-> <<>>, parameters |-> <<>>, other |-> <<>>]
 FullAnnS == [start |-> <<"2024-05-01T12:30:45Z">>, end |-> <<"2024-05-01T12:31:00Z">>,
              instance |-> <<"sha256:1111111111111111111111111111111111111111111111111111111111111111">>,
              solver |-> <<"sha256:2222222222222222222222222222222222222222222222222222222222222222">>,
              parameters |-> << [a |-> 1, b |-> "two"] >>, other |-> << <<"note", "n">> >>]
-Ann(k, full) == IF k \in {"instance", "parametric"} THEN (IF full THEN FullAnnI ELSE NoAnnI) ELSE (IF full THEN FullAnnS ELSE NoAnnS)
+Ann(k, full) == IF k \in {"instance", "parametric"} THEN (IF full THEN FullAnnI ELSE EmptyAnnI) ELSE (IF full THEN FullAnnS ELSE NoAnnS)
 Kinds == {"instance", "parametric", "solution", "sample_set"}
 Opts == Kinds \X BOOLEAN
 SeqsUpTo(S, n) == UNION { [1..k -> S] : k \in 0..n }
